@@ -13,6 +13,10 @@ pub const HDR_VERSION: u8 = 0b001;
 /// Indicates that this is an SMBus command code
 pub(crate) const MCTP_SMBUS_COMMAND_CODE: u8 = 0x0F;
 
+/// The largest message body (message type, headers and data) for which the
+/// byte count (source address, transport header and body) fits in one byte
+pub(crate) const MCTP_SMBUS_MAX_BODY_LEN: usize = 250;
+
 bitfield! {
     /// The MCTP SMBus/I2C Packet Header
     pub struct MCTPSMBusHeader([u8]);
@@ -82,7 +86,7 @@ impl<'a, 'b> MCTPSMBusPacket<'a, 'b> {
     ///
     /// Currently this just sets the total byte count.
     fn finalise(&mut self) {
-        self.smbus_header.set_byte_count(self.len() as u8 - 4);
+        self.smbus_header.set_byte_count((self.len() - 4) as u8);
     }
 }
 
